@@ -39,6 +39,13 @@ PROP_MASK = 1 | 4 | 8 | 16 | 32 | 64 | 128 | 256 | 512 | 4096 | 8192 | 16384 | 3
 TIE_MASK = 2 | 1024 | 2048
 
 
+def prepare():
+    """setup: regenerate Gen/*.v from the current source (translator) so that a fresh checkout builds"""
+    ok, log = vlib.run_translator()
+    if not ok:
+        raise vlib.BuildError("translator failed on the current source:\n" + log[-2000:])
+
+
 def local_findings():
     """entries proposed by this check for known_findings.json (design/C07.findings.json) until the lead merges them"""
     p = os.path.join(vlib.ROOT, "design", "C07.findings.json")
